@@ -22,7 +22,10 @@ RULE = ("valid streams from the real encoder (random meshes of every topology fa
         'case) and the regression streams of repaired findings (dcc9947, c9df685, 63027a3); the structure-aware '
         'bases include hand-built legacy 2.0-2.2 integer / float kd-tree streams (harness op legacykd; '
         'compared with the Lean model), point clouds spliced into one stream with 2..3 attributes decoders (validity cases '
-        'and bases for header / count corruption) and valence-traversal streams with located context counts')
+        'and bases for header / count corruption) and valence-traversal streams with located context counts'
+        '; multi-decoder streams are walked decoder by decoder, Edgebreaker decoder heads are copied / swapped '
+        '(eb_decoder_head_mutations), re-laid-out legacy meshes (props/meshlegacy.py) and last_corner_fan bases '
+        'are part of the foreign / structured families; the per-op watchdog counts CPU time')
 THEOREM_BACKED = ("DracoProps.C03: decode_ok_valid: decodeGeometrySeq opts s = (some r, s') -> r.geometry.valid = true for "
                   'every byte string and option set (sequential point cloud + mesh decoders of every bitstream version); '
                   'decode_seq_stream_ok_valid; decode_ok_valid_with; decode_all_ok_valid_partial; '
@@ -34,7 +37,8 @@ THEOREM_BACKED = ("DracoProps.C03: decode_ok_valid: decodeGeometrySeq opts s = (
                   'whenever it has an attribute), eb_decode_ok_valid_of_faces (attribute-less mesh: face bound as '
                   'hypothesis), decode_all_ok_valid / decode_all_ok_accessors (the COMPLETE decoder decodeGeometry, every '
                   'method and version, no hypothesis on the stream: every attribute valid; valid and every accessor read in'
-                  ' bounds whenever there is an attribute)')
+                  ' bounds whenever there is an attribute); source_dataTypeLength_is_model (DataTypeLength as compiled = '
+                  'model for the valid data types)')
 CORRESPONDENCE_ONLY = ('face index < num_points for an Edgebreaker mesh with ZERO attribute decoders (never produced by the '
                        'encoder, accepted by the decoder) is not proved — it is the hypothesis of eb_decode_ok_valid_of_faces '
                        '(evidence: 24.7 M exhaustively enumerated + 24 M random synthesized connectivity streams on the real '
